@@ -158,3 +158,60 @@ def request_context(ctx, rule):
         'set_ctx does not store the given context (None included) under '
         'the key ctx() reads', ctx.loc(s))
     return 4
+
+
+IDENTITY_HEADERS = ('X-Identity-Status', 'X-Project-Id', 'X-Roles')
+
+
+def identity_headers(ctx, rule):
+    """The context is built from the identity headers of the request
+    (oslo.context from_environ).  With the keystone handler they are written
+    by keystonemiddleware, which strips client-supplied ones.  The keycloak
+    handler writes them itself: after a successful authentication each
+    identity header must have been *overwritten* from the verified token -
+    an assignment that every normal exit passes, not a default that a
+    header sent by the caller survives."""
+    prog = ctx.prog
+    f = prog.func('mistral.auth.keycloak.KeycloakAuthHandler.authenticate')
+    cfg = ctx.cfg(f)
+    req = f.params[1]
+    n_ok = 0
+    for h in IDENTITY_HEADERS:
+        sets = [n for n in cfg.nodes if n.kind == 'stmt' and
+                isinstance(n.ast, ast.Assign) and any(
+                    isinstance(t, ast.Subscript) and
+                    dotted(t.value) == req + '.headers' and
+                    isinstance(t.slice, ast.Constant) and t.slice.value == h
+                    for t in n.ast.targets)]
+        ok = bool(sets) and cfg.must_pass(cfg.entry, sets, exits=[cfg.exit])
+        # the value comes from the token, never from the request
+        for n in sets:
+            v = n.ast.value
+            names = set(U.names_in(v))
+            for nm in list(names):
+                for x in own_nodes(f.node):
+                    if isinstance(x, ast.Assign) and any(
+                            isinstance(y, ast.Name) and y.id == nm and
+                            isinstance(y.ctx, ast.Store)
+                            for t in x.targets for y in ast.walk(t)):
+                        names |= set(U.names_in(x.value))
+            if req in names:
+                ok = False
+            if h != 'X-Identity-Status' and 'decoded' not in names:
+                ok = False
+        rule.check(ok, ctx.construct(f, extra='%s overwritten' % h),
+                   'after a successful keycloak authentication the %s header '
+                   'is not unconditionally overwritten from the verified '
+                   'token: a value sent by the caller (another project, the '
+                   'admin role) is what the request context is built from'
+                   % h, ctx.loc(f, sets[0].ast if sets else None))
+        n_ok += 1
+    # nothing else hands the caller's own identity headers a way through
+    for n in own_nodes(f.node):
+        if isinstance(n, ast.Call) and isinstance(n.func, ast.Attribute) \
+                and n.func.attr in ('setdefault', 'update') and \
+                dotted(n.func.value) == req + '.headers':
+            rule.fail(ctx.construct(f, n),
+                      'identity headers are merged with what the caller '
+                      'sent instead of being overwritten', ctx.loc(f, n))
+    return n_ok
